@@ -7,6 +7,10 @@
      CVX k x y ..                                    -> "1" | "0"                          (convex_ccw)
      PLAIN nshapes {k x y ..} sx sy dx dy            -> "route cost n x y .." | "nopath" | "fail"
      TAUT pen nshapes {k x y ..} sx sy dx dy         -> same  (pen in pico units, decimal)
+     TAUTVO pen nshapes {k x y ..} sx sy dx dy       -> same  (route_taut_vertex_only: one label per VERTEX - the scene selector of
+                                                        C04's family "corner reachable both ways round its obstacle", not an oracle)
+     TAUTSEL npens {pen} nshapes {k x y ..} sx sy dx dy -> per penalty "costP costV" (taut_select: route_taut's search and the vertex-only search over
+                                                        shared tables; "-" = no route)
      COST pen n {x y}                                -> "len turns"   (polyline_len, polyline_turns; pico units)
      VBP ax ay bx by cx cy dx dy ex ey               -> "1" | "0"   (spec_validateBendPoint)
    Costs are printed as decimal integers in units of 1e-12; route points as decimal num/den. *)
@@ -110,6 +114,18 @@ let () =
            let shapes = next_shapes () in
            let s = next_pt () in let d = next_pt () in
            print_route (route_taut pen shapes s d)
+         | "TAUTVO" ->
+           let pen = z_of_int (next_int ()) in
+           let shapes = next_shapes () in
+           let s = next_pt () in let d = next_pt () in
+           print_route (route_taut_vertex_only pen shapes s d)
+         | "TAUTSEL" ->
+           let np = next_int () in
+           let pens = List.init np (fun _ -> z_of_int (next_int ())) in
+           let shapes = next_shapes () in
+           let s = next_pt () in let d = next_pt () in
+           let str = function Some c -> string_of_int (int_of_z c) | None -> "-" in
+           print_endline (String.concat " " (List.map (fun (a, b) -> str a ^ " " ^ str b) (taut_select pens shapes s d)))
          | "COST" ->
            let pen = z_of_int (next_int ()) in
            let r = next_poly () in
